@@ -89,6 +89,12 @@ def run(tier):
     C.selftest_record(chk, "TraceFraming", "TraceFraming.cfg", tr, earlier, "delivered-one-chunk-early")
     C.selftest_record(chk, "TraceFraming", "TraceFraming.cfg", tr, reordered, "two-entries-swapped")
     os.remove(tr)
+    # (d) framing while the client is busy: in the connection lane (LdapConn.tla, TraceLdapConn.tla) a response is delivered in
+    # two parts with client operations (new requests, Abandons, timeouts, finishes) and clock ticks between the parts
+    import connlane as L
+    L.lane_into(chk, "C06", [], [("split", 200 if tier == "quick" else 3000)],
+                "connection lane, profile `split`: 40 % of the responses are delivered in two parts at different steps; anything the "
+                "model cannot explain while a part is outstanding is (also) C06's", [])
     chk.assumptions += ["TLC and the CommunityModules Json reader are correct",
                         "spec/Framing.tla transcribes RFC 4511 4.1.1 / 5.1 framing correctly (cross-checked against the constructors of FramePool by MCFraming's ASSUMEs)",
                         "decode() depends on the buffer contents only (BytesMut capacity/allocation history is not varied beyond append-after-old-contents)",
